@@ -274,7 +274,7 @@ class C20(Prop):
     # (family, shards, modes): one maxsatz process costs 0.1-0.3 s CPU, the semiring mode 3 ms
     families = {"quick": [("F2.3", 48, MODES), ("F1.2", 32, ("semiring",)), ("F3.1", 12, MODES), ("F2.2", 8, MODES),
                           ("F1.1", 8, MODES), ("F1.1dup", 4, MODES), ("F1.1one", 4, MODES)],
-                "thorough": [("F1.2", 192, MODES), ("F2.4", 128, MODES), ("F3.2", 64, MODES), ("F1.3s", 32, MODES),
+                "thorough": [("F1.1one", 4, MODES), ("F1.2", 192, MODES), ("F2.4", 128, MODES), ("F3.2", 64, MODES), ("F1.3s", 32, MODES),
                              ("F2.3", 48, MODES), ("F3.1", 12, MODES), ("F2.2", 8, MODES), ("F1.1", 8, MODES), ("F1.1dup", 4, MODES)]}
     budget = {"quick": 300, "thorough": 2400}
 
